@@ -11,6 +11,7 @@ import (
 	"github.com/invopop/gobl/dsig"
 	"github.com/invopop/gobl/head"
 	"github.com/invopop/gobl/internal/iotools"
+	"github.com/invopop/gobl/schema"
 )
 
 // Verify reads a GOBL document from in, and returns an error if there are any
@@ -37,6 +38,9 @@ func Verify(ctx context.Context, in io.Reader, key *dsig.PublicKey) error {
 		h := new(head.Header)
 		if err := sig.VerifyPayload(key, h); err != nil {
 			return wrapError(http.StatusUnprocessableEntity, err)
+		}
+		if err := schema.CheckNullElements(h); err != nil {
+			return wrapErrorf(http.StatusUnprocessableEntity, "invalid signature payload")
 		}
 		if !env.Head.Contains(h) {
 			return wrapErrorf(http.StatusUnprocessableEntity, "header mismatch")
